@@ -9,8 +9,17 @@ are drawn mostly inside the window, around its edges, and under overlapping sibl
 exhaustive: every sequence of <= 4 operations from a 17-letter alphabet (focus / hide / show / restack / cursor / close /
 flush) on a fixed two-level tree with an overlapping sibling, each closed by a flush.
 
+Histories come in three blocks, in this order, so that the check's per-file budget of examined failures is not used up
+by the known findings (which are frequent: a quarter of the unrestricted histories move the focus between a window
+and its ancestor):
+  discipline 2 (40 %): focus only moves inside an antichain of windows (never between a window and its ancestor), the
+      root is never hidden, no window asking for child notifications has focus candidates in two branches, and every
+      window lies inside its parent and is not empty  -> none of the four known findings can trigger; any alarm is new;
+  discipline 1 (30 %): the same focus discipline, geometry unrestricted (windows outside their parents, empty windows);
+  discipline 0 (30 %): no restriction at all (this is where the known findings are met again and again).
+
 The generator keeps within the engine's scope guards (see harness/focus.c): no operation on closed windows or below
-them, no close with a restack queued, unref only of windows without live children.
+them, unref only of windows without live children.
 """
 import argparse, random, json, itertools
 
@@ -31,11 +40,44 @@ def note(k):
 
 
 class Hist:
-    def __init__(self, L, C):
+    def __init__(self, L, C, disc=0):
         self.L, self.C = L, C
+        self.disc = disc
         self.w = {0: dict(parent=None, rect=(0, 0, L, C), closed=False, freed=False, vis=True)}
         self.pending = set()
+        self.fset = set()      # discipline >= 1: the windows that may take the focus (an antichain)
+        self.notify = set()    # windows that asked for child notifications
         emit("new %d %d" % (L, C))
+        if disc and rng.random() < 0.08: self.fset.add(0)
+
+    def ancestors(self, i):
+        out = []; i = self.w[i]["parent"]
+        while i is not None:
+            out.append(i); i = self.w[i]["parent"]
+        return out
+
+    def member_branches(self, p, extra=None):
+        """children of p whose subtree holds a focus candidate"""
+        ms = set(self.fset) | ({extra} if extra is not None else set())
+        br = set()
+        for m in ms:
+            if m == p: continue
+            chain = [m] + self.ancestors(m)
+            if p in chain: br.add(chain[chain.index(p) - 1])
+        return br
+
+    def may_join(self, i):
+        anc = self.ancestors(i)
+        if any(a in self.fset for a in anc): return False
+        if any(i in self.ancestors(m) for m in self.fset): return False
+        for a in anc:
+            if a in self.notify and len(self.member_branches(a, extra=i)) > 1: return False
+        return True
+
+    def focus_target(self, default):
+        if not self.disc: return default
+        c = [m for m in self.fset if self.live(m) and not self.detached(m)]
+        return rng.choice(c) if c else None
 
     def live(self, i): return i in self.w and not self.w[i]["freed"]
 
@@ -54,7 +96,7 @@ class Hist:
         _, _, n, c = self.w[p]["rect"]
         n, c = max(n, 1), max(c, 1)
         x = rng.random()
-        if x < 0.62:
+        if x < 0.62 or self.disc >= 2:
             t = rng.randint(0, max(0, n - 1)); l = rng.randint(0, max(0, c - 1))
             h = rng.randint(1, max(1, n - t)); wd = rng.randint(1, max(1, c - l)); note("rect_inside")
         elif x < 0.84:
@@ -86,6 +128,7 @@ class Hist:
                 t += self.w[q]["rect"][0]; l += self.w[q]["rect"][1]; q = self.w[q]["parent"]
             r = (t, l, r[2], r[3])
         self.w[i] = dict(parent=realp, rect=r, closed=False, freed=False, vis=not (flags & 1))
+        if self.disc and rng.random() < 0.7 and self.may_join(i): self.fset.add(i)
 
     def cursor_cell(self, i):
         _, _, n, c = self.w[i]["rect"]
@@ -107,7 +150,17 @@ class Hist:
         p = self.w[i]["parent"]
         old = self.w[i]["rect"]
         k = rng.random()
-        if k < 0.4:
+        if self.disc >= 2:
+            # stay inside the parent; a window with children only moves
+            _, _, pn, pc = self.w[p]["rect"]
+            if self.kids(i) or k < 0.5:
+                if old[2] > pn or old[3] > pc: return
+                new = (rng.randint(0, pn - old[2]), rng.randint(0, pc - old[3]), old[2], old[3])
+                emit("repos %d %d %d" % (i, new[0], new[1]))
+            else:
+                new = self.rect_in(p)
+                emit("geom %d %d %d %d %d" % ((i,) + new))
+        elif k < 0.4:
             new = (old[0] + rng.randint(-2, 2), old[1] + rng.randint(-3, 3), old[2], old[3])
             emit("repos %d %d %d" % (i, new[0], new[1]))
         elif k < 0.6:
@@ -132,7 +185,8 @@ class Hist:
         i = rng.choice(nonroot)
         any_ = rng.choice(us) if rng.random() < 0.12 else i
         if x < 0.26:
-            emit("focus %d" % any_)
+            tgt = self.focus_target(any_)
+            if tgt is not None: emit("focus %d" % tgt)
         elif x < 0.36:
             emit("curpos %d %d %d" % ((any_,) + self.cursor_cell(any_)))
         elif x < 0.41:
@@ -142,9 +196,13 @@ class Hist:
         elif x < 0.47:
             emit("curblink %d %d" % (any_, rng.choice([0, 1, 5])))
         elif x < 0.51:
-            emit("notify %d %d" % (any_, rng.choice([1, 1, 1, 0, 2])))
+            v = rng.choice([1, 1, 1, 0, 2])
+            if self.disc and v % 2 and len(self.member_branches(any_)) > 1: return
+            emit("notify %d %d" % (any_, v))
+            if v % 2: self.notify.add(any_)
+            else: self.notify.discard(any_)
         elif x < 0.59:
-            tgt = any_ if (any_ != 0 or rng.random() < 0.15) else i
+            tgt = any_ if (any_ != 0 or (rng.random() < 0.15 and not self.disc)) else i
             if tgt == 0: note("hide_root")
             emit("hide %d" % tgt); self.w[tgt]["vis"] = False
         elif x < 0.66:
@@ -156,9 +214,8 @@ class Hist:
         elif x < 0.83:
             self.geom_change(i)
         elif x < 0.86:
-            if self.kids(i): return
-            if i in self.pending:
-                emit("flush"); self.pending.clear()
+            if self.kids(i): note("close_with_children")
+            if i in self.pending: note("close_with_restack_queued")
             emit("close %d" % i); self.w[i]["closed"] = True
         elif x < 0.88:
             leaves = [j for j in self.w if j != 0 and self.live(j) and not self.kids(j)]
@@ -172,9 +229,10 @@ class Hist:
             emit("flush"); self.pending.clear()
 
 
-def random_history():
+def random_history(disc):
     L, C = rng.choice([(1, 1), (3, 4), (6, 10), (8, 16), (8, 16), (10, 20), (12, 30)])
-    h = Hist(L, C)
+    note("discipline_%d" % disc)
+    h = Hist(L, C, disc)
     for _ in range(rng.randint(1, 5)):
         h.new_win()
     for i in list(h.w):
@@ -207,8 +265,8 @@ if a.tier == "exhaustive":
     info = {"exhaustive_bound": "every sequence of <=4 operations from a 17-letter alphabet on a fixed two-level tree (root, two overlapping children, one grandchild), each closed by a flush", "histories": nh}
 else:
     H = 1800 if a.tier == "quick" else 12000
-    for _ in range(H):
-        random_history()
+    for k in range(H):
+        random_history(2 if k < 0.4 * H else 1 if k < 0.7 * H else 0)
     info = {"histories": H}
 
 open(a.out, "w").write("\n".join(lines) + "\n")
